@@ -216,11 +216,149 @@ def input_circuit(n, k, outs=2):
     return {"input_regs": [k] * n, "insts": insts, "max_reg": r + 2, "output_regs": [r + 1, r][:outs], "and_ops": 1}
 
 
+ABIT_KEY = ("C06: the aBit consistency test discloses a parity of the returned share bits (its coefficient vectors are "
+            "linearly dependent on the discarded positions)")
+
+
+def abit_events(out, nparties):
+    """Re-encode the probes / decoded messages of the fabitn calls of each run as one event per call for Mon_ABit
+    (format conversion only: limbs -> positions)."""
+    def val(v):
+        return sum(x << (16 * i) for i, x in enumerate(v))
+    evs = []
+    cur, R, X, M = None, {}, {}, {}
+    for r in vlib.read_ndjson(out):
+        if r["ev"] == "cfg":
+            cur, R, X, M = r["run"], {}, {}, {}
+        elif r["ev"] == "probe" and r["name"] == "abit_r":
+            R.setdefault(r["p"], []).append([val(v) for v in r["vals"]])
+        elif r["ev"] == "probe" and r["name"] == "abit_x":
+            X.setdefault(r["p"], []).append([val(v) for v in r["vals"]])
+        elif r["ev"] == "msg" and r["ph"] == "fabitn":
+            M.setdefault((r["from"], r["to"]), []).append(r["v"])
+        elif r["ev"] == "end" and R:
+            n = nparties[cur]
+            ncalls = min(len(R[p]) for p in R)
+            for call in range(ncalls):
+                rv = R[0][call]
+                l, lp = rv[0], rv[1]
+                blocks = (lp + 127) // 128
+                rows = []
+                for t in range((len(rv) - 2) // blocks):
+                    x = 0
+                    for b in range(blocks):
+                        x |= rv[2 + t * blocks + b] << (128 * b)
+                    rows.append([k + 1 for k in range(lp) if (x >> k) & 1])
+                parties = []
+                for p in range(n):
+                    msgs = M.get((p, (p + 1) % n), [])
+                    if p not in X or call >= len(X[p]) or call >= len(msgs):
+                        continue
+                    xs = 0
+                    for b, w in enumerate(X[p][call]):
+                        xs |= w << (128 * b)
+                    parties.append({"p": p, "ones": [k + 1 for k in range(lp) if (xs >> k) & 1],
+                                    "xt": [1 if (e[0] is True or e[0] == 1) else 0 for e in msgs[call]]})
+                evs.append({"ev": "abit", "run": cur, "call": call, "l": l, "lp": lp, "rows": rows, "parties": parties})
+    return evs
+
+
+def abit_model(wd, tier):
+    """ABit.tla: the consistency test as linear algebra over GF(2), all coefficient choices of small sizes: DisclosureIsExact,
+    MaskedIfFullRank, LeakBound (constant-level count), soundness invariants; negative control AlwaysHidden must fail for
+    as many discarded bits as tests."""
+    states = 0
+    runs = []
+
+    def mc(L, E, R, mode, extra=None):
+        cp = f"{wd}/abit-{L}-{E}-{R}-{mode}-{extra}.cfg"
+        with open(cp, "w") as f:
+            f.write(f'SPECIFICATION Spec\nCONSTANTS\n L = {L}\n E = {E}\n R = {R}\n MODE = "{mode}"\n'
+                    "INVARIANT MaskedIfFullRank\nINVARIANT DisclosureIsExact\nINVARIANT InconsistentPassOnlyIfOrthogonal\n"
+                    "INVARIANT ConsistentPasses\nINVARIANT WrongValueRejected\nCHECK_DEADLOCK FALSE\n"
+                    + (f"INVARIANT {extra}\n" if extra else ""))
+        return vlib.run_tlc("ABit", cp, wd, workers=8, timeout=1500)
+    plan = [(2, 2, 2, "secrecy"), (2, 3, 2, "secrecy"), (2, 4, 2, "secrecy"), (3, 2, 2, "secrecy"), (2, 1, 2, "soundness"),
+            (2, 2, 2, "soundness")] + ([] if tier == "quick" else [(2, 3, 3, "secrecy"), (3, 3, 2, "secrecy"), (2, 2, 3, "soundness")])
+    leaky = {}
+    for (L, E, R, mode) in plan:
+        r = mc(L, E, R, mode)
+        if not r["ok"]:
+            raise vlib.ToolError(f"ABit (L={L}, E={E}, R={R}, {mode}) reports an error:\n" + vlib.strip_tlc(r["out"])[-1500:])
+        states += r["distinct"]
+        runs.append({"config": f"L={L},E={E},R={R},{mode}", "distinct": r["distinct"]})
+        for line in r["out"].splitlines():
+            if line.startswith('<<"LEAKY"'):
+                x = [int(t) for t in line.strip("<>").split(",")[1:]]
+                leaky[f"L={x[0]},E={x[1]},R={x[2]}"] = f"{x[3]} of {x[4]} coefficient choices rank-deficient on the discarded positions"
+    r = mc(2, 2, 2, "secrecy", extra="AlwaysHidden")
+    if r["ok"] or "AlwaysHidden is violated" not in r["out"]:
+        raise vlib.ToolError("negative control failed: ABit with as many discarded bits as tests satisfies AlwaysHidden")
+    return {"states": states, "configs": runs, "rank_deficient_fraction": leaky, "negative_controls_failed_as_required": 1}
+
+
+def abit_check(v, tier, wd, rng, replay_job=None):
+    """C06, clause 'a share that it never discloses': Mon_ABit over the aBit tests of real honest runs, the ABit model, and
+    a negative control (a recorded call of the pinned tree, findings/C06-abit-recorded-call.ndjson, must be flagged)."""
+    q = tier == "quick"
+    jobs = []
+    if replay_job is not None:
+        for r in range(12):
+            jobs.append(dict(replay_job, id=f"{replay_job['id']}.rep{r}"))
+    else:
+        for n in (2, 3) if q else (2, 3, 4):
+            for ci, c in enumerate([input_circuit(n, 2), ej.fixed_small(n)[1]]):
+                for r in range(3 if q else 12):
+                    jobs.append(ej.job(f"abit.n{n}.c{ci}.{r}", c, ej.rand_inputs(rng, c), r % n, [0], cap=1, pol=ej.policy(rng, n),
+                                       events=False, probes=True, content_phases=["fabitn"], tag={"grp": "abit"}))
+    out = vlib.run_pt("engine", jobs, wd, name="c06abit", timeout=3600)
+    evs = abit_events(out, {j["id"]: len(j["circuit"]["input_regs"]) for j in jobs})
+    tp = f"{wd}/c06abit.events.ndjson"
+    with open(tp, "w") as f:
+        for e in evs:
+            f.write(json.dumps(e) + "\n")
+    res = vlib.tlc_trace("Mon_ABit", vlib.MON_CFG, tp, wd, depth_first=False, timeout=3600, name="Mon_ABit")
+    jb = {j["id"]: j for j in jobs}
+    for x in res.get("drift", []):
+        v.spec_drift(f"Mon_ABit: run {x['run']} call {x['call']}: {x['what']}")
+    seen = False
+    for x in res.get("viol", []):
+        if seen:
+            break
+        seen = True
+        j = jb[x["run"]]
+        base = dict(j, id=j["id"].split(".rep")[0])
+        v.violation(ABIT_KEY, {"kind": "abit-job", "job": base, "note": "the coins differ from run to run: the replay repeats the job 12 times"},
+                    f"run {x['run']}, fabitn call {x['call']} (l={x['l']}, l'={x['lp']}): the XOR of the broadcast test bits "
+                    f"{x['tests'][:8]}... ({x['ntests']} tests) equals the parity of the party's returned bits at positions "
+                    f"{x['positions'][:12]}{'...' if len(x['positions']) > 12 else ''}; confirmed on the recorded values: {x['confirmed']}; "
+                    f"{res['leaking']} of {res['checked']} calls of this check leak")
+    # negative control: a call recorded on the pinned tree
+    neg = vlib.tlc_trace("Mon_ABit", vlib.MON_CFG, vlib.ROOT + "/findings/C06-abit-recorded-call.ndjson", wd, depth_first=False,
+                         timeout=600, name="Mon_ABit_neg")
+    if neg["leaking"] < 1 or not neg["viol"] or not neg["viol"][0]["confirmed"]:
+        raise vlib.ToolError("negative control failed: Mon_ABit accepts the recorded call of the pinned tree")
+    model = abit_model(wd, tier) if replay_job is None else {}
+    return {"abit_calls_checked": res["checked"], "abit_calls_leaking": res["leaking"], "abit_runs": len(jobs),
+            "abit_negative_control": "recorded call of the pinned tree flagged", "abit_model": model}
+
+
 def check_C06(tier, replay):
     v = Verdict("C06", tier, "exploration")
     wd = vlib.workdir("C06")
     q = tier == "quick"
     rng = random.Random(f"c06-{v.seed}")
+    if replay:
+        with open(replay) as f:
+            rp = json.load(f)["replay"]
+        if rp.get("kind") == "abit-job":
+            ab = abit_check(v, tier, wd, rng, replay_job=rp["job"])
+            v.coverage = {"evaluations": ab["abit_runs"], "distinct_nontrivial": ab["abit_calls_checked"],
+                          "rule": "replay of one job, repeated 12 times (fresh coins each time)", "samples": [rp["job"]["id"]]}
+            v.coverage.update(ab)
+            rc = v.finish()
+            shutil.rmtree(wd, ignore_errors=True)
+            return rc
     N = 200 if q else 1000
     jobs = []
     # balance groups: fixed inputs, N runs each; both values on every wire of the observed party
@@ -262,15 +400,19 @@ def check_C06(tier, replay):
                         f"history of {len(jobs)} runs: {x['what']}")
         else:
             v.violation("C06: " + x["what"], {"kind": "engine-job", "job": jb[x["run"]]}, f"run {x['run']}: {x['what']}")
+    ab = abit_check(v, tier, wd, rng)
     v.coverage = {
-        "evaluations": len(jobs), "distinct_nontrivial": res["counters"] + res["keys"],
+        "evaluations": len(jobs) + ab["abit_runs"], "distinct_nontrivial": res["counters"] + res["keys"] + ab["abit_calls_checked"],
         "rule": "each evaluation = one real honest mpc() run with fixed inputs; Mon_C06 derives, from the transcript only, "
                 "input XOR own-mask-share per input wire of the observed party and accumulates balance counters per "
-                "(group, wire, input value); distinct = balance counters + distinct global keys seen",
+                "(group, wire, input value); distinct = balance counters + distinct global keys seen + aBit test calls judged "
+                "by Mon_ABit (no XOR of the public coefficient vectors may avoid every discarded position while touching a "
+                "returned one)",
         "samples": [{"job": jobs[0]["id"], "inputs": jobs[0]["inputs"], "tag": jobs[0]["tag"]},
                     {"job": jobs[-1]["id"], "tag": jobs[-1]["tag"]}],
         "runs_per_input_value": N, "balance_counters": res["counters"], "global_keys_compared": res["keys"],
     }
+    v.coverage.update(ab)
     v.assumptions = ["first-order balance and freshness only: a subtly biased or correlated generator passes (DESIGN.md 5)"]
     rc = v.finish()
     shutil.rmtree(wd, ignore_errors=True)
